@@ -1,8 +1,9 @@
 (* Extraction of the C12 model (printers, literal conversion, reading through the C13 lexer/reader). *)
 From Coq Require Import ZArith List ExtrOcamlBasic.
-Require Import ZV.Model.Regex ZV.Generated.LexTables ZV.Model.Lexer ZV.Model.Reader ZV.Model.Printer ZV.Model.PrinterPretty.
+Require Import ZV.Model.Regex ZV.Generated.LexTables ZV.Model.Lexer ZV.Model.Reader ZV.Model.Printer ZV.Model.PrinterPretty ZV.Model.StrLit.
 Extraction "model.ml" Z.add Z.mul Z.opp Z.div_eucl Z.of_nat Z.to_nat Z.compare
   lex_text lex_all init_lstate decode_atom parse_whole observe
   quote_str quote_rune print scan_text read to_sexp atom_value float_text ftok_text
   spell math_value pos_value digit_of itoa utoa hist_apply eval_json_like jv_of save_text read_repl split_lines read_pieces
-  pprint ppr decorate erase pwf psave_text.
+  pprint ppr decorate erase pwf psave_text
+  str_spelling chr_spelling bt_spelling denote litem_rune litem_wf std_escape.
